@@ -549,6 +549,7 @@ static void check_c10(const TypeOps& t) {
         ProbeReader r(bytes.data(), bytes.size());
         r.fail_at = (long)k;
         r.fail_with = e;
+        r.scribble_on_failure = true;  // the destination is not inspected after the failed read in this check
         int got = t.probe_read(dst.p, r);
         R.counters["evaluations"]++;
         R.distinct_direct++;
